@@ -2,7 +2,11 @@
 // what the symbolic engine loads: every function is an engine intrinsic.
 package zzrt
 
-import "math/big"
+import (
+	"math/big"
+
+	"github.com/dgraph-io/badger/v4"
+)
 
 func Bool() bool
 func U8() uint8
@@ -30,3 +34,5 @@ func And(a, b bool) bool
 func Implies(a, b bool) bool
 func Ite64(c bool, a, b uint64) uint64
 func MakeCap(n int)
+func NewKV() *badger.DB
+func KVConflicts()
